@@ -320,6 +320,16 @@ for what, make in (("formula('')", lambda: formula("")), ("formula()", lambda: f
                  % (what, what, what, dict(c.atoms)), program="a = %s; b = %s; a += formula('H2O'); %s.atoms" % (what, what, what))
 
 cases, meta = [], []
+# the electron mass an ion is lighter by is the recommended value (5.4857990946(22)e-4 u CODATA 2010; later adjustments
+# differ by 4e-14), to a relative 1e-9
+for a_ in (periodictable.elements.H.ion[1], periodictable.elements.Fe[56].ion[3], periodictable.elements.O.ion[-2]):
+    me_ = (a_.element.mass - a_.mass) / a_.charge
+    if abs(me_ - 5.4857990946e-4) > 5e-13 + 1e-12 * a_.element.mass:
+        fail("C02:electron-mass", "%r weighs %r and %r weighs %r: (difference)/charge = %.12g u, the electron mass is 5.4857990946e-4 u"
+             % (a_.element, a_.element.mass, a_, a_.mass, me_), program="elements.%r.mass" % a_)
+if abs(constants.electron_mass - 5.4857990946e-4) > 5e-13:
+    fail("C02:electron-mass", "constants.electron_mass is %r, the electron mass is 5.4857990946(22)e-4 u" % constants.electron_mass,
+         program="constants.electron_mass")
 # copying a formula into another table leaves the original alone (operands are unchanged)
 try:
     from periodictable import core as _core, mass as _mass
